@@ -40,27 +40,27 @@ Verdict(C) ==
     ELSE
       LET NUM == LocalNum(Mc, Mf, par, T)
           OCC == Occurrences(Gf, ngf)
-          ROWS == TLCEval([i \in 1..ngf |-> RowContribs(OCC[i], NUM, Gc, par, dim)])
           ls == LocalScale(T)
           k == C.ps \div ls
           h1 == Conformity(el) \in {"H1", "C1"}
           nested == Nested(el, fam)
-          vecOK(v) == Len(v) = ngf /\ \A i \in 1..ngf : v[i] * Cardinality(OCC[i]) = RowTimes(ROWS[i], C.x) * k
-          \* (P^T y)[j] * ps, accumulated from the SPECIFIED rows: sum_i y_i * RowValue(i, j) * k / mult_i ; to stay in the integers
-          \* the restriction is judged through the observed integer matrix once that has been shown equal to the specified one
-          restOK == Len(C.ry) = ngc /\ \A j \in 1..ngc :
-                      C.ry[j] = MapThenSumSet(LAMBDA t : t[3] * C.y[t[1]], {t \in Triples(C.P) : t[2] = j - 1})
-          prolOK == \A i \in 1..ngf : RowMatches(C.P[i], ROWS[i], Cardinality(OCC[i]), C.ps, ls)
+          WD == TLCEval([i \in 1..ngf |-> ProlWellDefined(OCC[i], NUM, Gc, par, dim)])
+          ROWS == TLCEval([i \in 1..ngf |-> SpecRow(OCC[i], NUM, Gc, par, dim, WD[i])])
+          vecOK(v) == Len(v) = ngf /\ \A i \in 1..ngf : v[i] * ROWS[i].den = RowTimes(ROWS[i], C.x) * k
+          prolOK == \A i \in 1..ngf : RowMatches(C.P[i], ROWS[i], C.ps, ls)
+          transOK == IsTranspose(C.R, C.P)
+          \* Transfer::rest(y) = R y; R is judged against P^T, P against the specification
+          restOK == Len(C.ry) = ngc /\ Len(C.R) = ngc /\ \A j \in 1..ngc : C.ry[j] = RowDot(C.R[j], C.y)
       IN UNION {
-           Fail(h1 => \A i \in 1..ngf : ProlWellDefined(OCC[i], NUM, Gc, par, dim), "ProlWellDefined"),
+           Fail(h1 => \A i \in 1..ngf : WD[i], "ProlWellDefined"),
            Fail(~C.pnoise, "ProlNoise"),
            Fail(prolOK, "ProlExact"),
-           Fail(IsTranspose(C.R, C.P), "RestIsTranspose"),
+           Fail(transOK, "RestIsTranspose"),
            Fail(C.rbit, "RestBitwise"),
            Fail(nested => (~C.tnoise /\ IsIdentity(C.TP, 1)), "TruncLeftInverse"),
            Fail(~C.vnoise /\ vecOK(C.pxv), "VectorProlAgrees"),
            Fail(vecOK(C.pxt), "TransferProlAgrees"),
-           Fail(prolOK => restOK, "TransferRestAgrees") }
+           Fail(restOK, "TransferRestAgrees") }
 
 Info(C) == [nc |-> C.levels[1].n[C.dim + 1], nf |-> C.levels[2].n[C.dim + 1], ngc |-> C.ngc, ngf |-> C.ngf,
             nnz |-> Cardinality(Triples(C.P))]
